@@ -156,7 +156,7 @@ theorem window_succ (b : Bytes) (base len : Nat) (h : b[base + len]? = some 10) 
 
 theorem parseLoop_crlf : ∀ (g : Nat) (fuel1 fuel2 : Nat) (c : Ctx) (base len : Nat) (prev : Option (Nat × Nat)) (res : Bool) (g' : Nat),
     base + len + 1 ≤ c.buf.length → c.buf[base + len]? = some 10 →
-    NoQuotes ((c.buf.drop base).take (len + 1)) → ((c.buf.drop base).take len).getLast? = some 13 →
+    QuotesLineLocal ((c.buf.drop base).take (len + 1)) → ((c.buf.drop base).take len).getLast? = some 13 →
     scanFrom g ((c.buf.drop base).take len) 0 = some (len, g') → c.oob = false →
     (∀ pp pl, prev = some (pp, pl) → pp + pl ≤ base) → len + 1 ≤ fuel2 → len + 2 ≤ fuel1 →
     parseLoop fuel1 c base (len + 1) prev res = parseLoop fuel2 c base len prev res := by
@@ -256,7 +256,7 @@ theorem parseLoop_crlf : ∀ (g : Nat) (fuel1 fuel2 : Nat) (c : Ctx) (base len :
             simp only [List.getElem?_drop] at this
             rw [show base + r + (len - r) = base + len by omega] at this ⊢
             rw [this]; exact hlf
-          · rw [hw1]; exact noQuotes_drop hq r
+          · rw [hw1]; exact qll_drop hq r
           · rw [hw2]
             rw [getLast?_drop_of_ne (by
               intro h0
@@ -275,7 +275,7 @@ holds `m ++ [CR, LF]`, the second `m ++ [CR]`, and `m ++ [CR]` is what the scan 
 message: both parses append the same events after the `parseMsg` marker and leave the same state -/
 theorem parse_crlf (c1 c2 : Ctx) (k g g' : Nat) (hp : Pers c1 c2)
     (hl1 : c1.buf.length = c1.bufLen) (hl2 : c2.buf.length = c2.bufLen) (hk : k + 1 < c1.bufLen) (ho : c1.oob = false)
-    (ht : c1.buf.take k = c2.buf.take k) (hlf : c1.buf[k]? = some 10) (hq : NoQuotes (c1.buf.take (k + 1)))
+    (ht : c1.buf.take k = c2.buf.take k) (hlf : c1.buf[k]? = some 10) (hq : QuotesLineLocal (c1.buf.take (k + 1)))
     (hcr : (c1.buf.take k).getLast? = some 13) (hs : scanFrom g (c1.buf.take k) 0 = some (k, g')) :
     Pers (parse c1 0 (k + 1)).1 (parse c2 0 k).1 ∧
     ∃ es, (parse c1 0 (k + 1)).1.events = c1.events ++ Ev.parseMsg (c1.buf.take (k + 1)) :: es ∧
@@ -291,7 +291,7 @@ theorem parse_crlf (c1 c2 : Ctx) (k g g' : Nat) (hp : Pers c1 c2)
   have hpl := parseLoop_crlf g (k + 1 + 2) (k + 2)
     (emit { c1 with out := outReset c1.out } (.parseMsg (c1.buf.take (k + 1)))) 0 k none true g'
     (by show 0 + k + 1 ≤ c1.buf.length; omega) (by show c1.buf[0 + k]? = some 10; rw [Nat.zero_add]; exact hlf)
-    (by show NoQuotes ((c1.buf.drop 0).take (k + 1)); rw [List.drop_zero]; exact hq)
+    (by show QuotesLineLocal ((c1.buf.drop 0).take (k + 1)); rw [List.drop_zero]; exact hq)
     (by show ((c1.buf.drop 0).take k).getLast? = some 13; rw [List.drop_zero]; exact hcr)
     (by show scanFrom g ((c1.buf.drop 0).take k) 0 = some (k, g'); rw [List.drop_zero]; exact hs)
     ho (by intro pp pl h; cases h) (by omega) (by omega)
